@@ -9,8 +9,10 @@ import (
 
 	"github.com/opsidian/parsley/combinator"
 	"github.com/opsidian/parsley/data"
+	"github.com/opsidian/parsley/parser"
 	"github.com/opsidian/parsley/parsley"
 	"github.com/opsidian/parsley/text"
+	"github.com/opsidian/parsley/text/terminal"
 	"pgregory.net/rapid"
 )
 
@@ -24,6 +26,10 @@ type C03Case struct {
 	PreLen    int      `json:"preLen,omitempty"` // > 0: the parsed file follows a file of that length in the file set
 	RegKw     bool     `json:"regKw,omitempty"`  // the terminal 'a' registers a keyword whenever it runs (in both grammars)
 	Wide      int      `json:"wide,omitempty"`   // != 0: the terminal 'b' and the input byte 'b' are this multi-byte rune
+	// Long > 0: no generated grammar but a backtracking template on an input of Long elements (see
+	// checkC03Long): "at most once per input position" on inputs far longer than any table size
+	Long     int `json:"long,omitempty"`
+	LongKind int `json:"longKind,omitempty"`
 }
 
 func (c *C03Case) Describe() string {
@@ -67,8 +73,80 @@ func runC03(g *Grammar, in string, memoRules []bool, noMemo bool, probe *Probe, 
 	return o
 }
 
+// checkC03Long: S -> X 'c' | X 'd' with X = A* (kind 0), X = Memoize(A*) (kind 1) or
+// X = A (',' A)* (kind 2), A a memoized terminal, on n elements followed by 'd': the second
+// alternative meets every position again, and every answer is in the cache by then. Each
+// memoized parser runs at most once per position, the input is accepted, and the plain grammar
+// returns the same tree.
+func checkC03Long(c *C03Case, st *Stats) error {
+	n := c.Long
+	if n < 1 || n > 20000 {
+		return Discard{"long template: bad length"}
+	}
+	runs := map[[2]int]int{}
+	counted := func(id int, p parsley.Parser) parsley.Parser {
+		return parser.Func(func(ctx *parsley.Context, l data.IntMap, pos parsley.Pos) (parsley.Node, data.IntSet, parsley.Error) {
+			runs[[2]int{id, int(pos)}]++
+			return p.Parse(ctx, l, pos)
+		})
+	}
+	build := func(memo bool) parsley.Parser {
+		m := func(id int, p parsley.Parser) parsley.Parser {
+			if memo {
+				return combinator.Memoize(counted(id, p))
+			}
+			return p
+		}
+		a := m(0, terminal.Rune('a'))
+		var x parsley.Parser
+		switch c.LongKind % 3 {
+		case 0:
+			x = combinator.Many(a)
+		case 1:
+			x = m(1, combinator.Many(a))
+		default:
+			x = combinator.SepBy(a, m(2, terminal.Rune(',')))
+		}
+		return combinator.Sentence(combinator.Any(combinator.SeqOf(x, terminal.Rune('c')), combinator.SeqOf(x, terminal.Rune('d'))))
+	}
+	in := strings.Repeat("a", n) + "d"
+	if c.LongKind%3 == 2 {
+		in = "a" + strings.Repeat(",a", n-1) + "d"
+	}
+	parse := func(p parsley.Parser) (string, error) {
+		ctx, _, _ := NewCtxAt(in, c.PreLen)
+		node, err := parsley.Parse(ctx, p)
+		if err != nil {
+			return "", err
+		}
+		return fmt.Sprintf("%s %d..%d", node.Token(), node.Pos(), node.ReaderPos()), nil
+	}
+	mres, merr := parse(build(true))
+	if merr != nil {
+		return fmt.Errorf("long template %d on %d elements: the memoized grammar rejects its sentence: %v", c.LongKind%3, n, merr)
+	}
+	for k, v := range runs {
+		if v > 1 {
+			return fmt.Errorf("long template %d on %d elements: the parser under Memoize #%d ran %d times at position %d within one parse", c.LongKind%3, n, k[0], v, k[1])
+		}
+	}
+	pres, perr := parse(build(false))
+	if perr != nil || pres != mres {
+		return fmt.Errorf("long template %d on %d elements: plain grammar %s / %v, memoized %s", c.LongKind%3, n, pres, perr, mres)
+	}
+	st.Class("long backtracking template (1000-5000 elements)")
+	st.NonTrivial()
+	return nil
+}
+
 func checkC03(ci interface{}, st *Stats) error {
 	c := ci.(*C03Case)
+	if c.Long > 0 {
+		return checkC03Long(c, st)
+	}
+	if c.G == nil {
+		return Discard{"no grammar"}
+	}
 	g, in := c.G, c.In
 	g.number()
 	for i, lr := range leftRecursiveRules(g) {
@@ -126,6 +204,41 @@ func checkC03(ci interface{}, st *Stats) error {
 	if m3 != m1 {
 		return fmt.Errorf("the un-instrumented build differs:\n probed %+v\n bare   %+v", m1, m3)
 	}
+	// one context used for two Parse calls: the rule itself as root, then Sentence(rule). Whatever the
+	// first call leaves in the context, it leaves it for the memoized and for the plain grammar alike;
+	// the second call (whose memoized parsers answer from the first call's cache) must reach the same
+	// verdict and report the same location (the text may differ: of several failures at the furthest
+	// position the one recorded last is named, and a cache hit does not record again)
+	twoCalls := func(noMemo bool) (first, second string) {
+		b := Build(g, BuildOpts{MemoRules: c.MemoRules, NoMemo: noMemo, RegKw: c03RegKw, Wide: wide})
+		ctx, _, _ := NewCtxAt(in, c.PreLen)
+		render := func(n parsley.Node, err error) string {
+			if err != nil {
+				m := err.Error()
+				if i := strings.LastIndex(m, " at "); i >= 0 {
+					return "error" + m[i:]
+				}
+				return "error without location: " + m
+			}
+			return RenderResult(n, 1)
+		}
+		n1, e1 := parsley.Parse(ctx, b.NT[0])
+		first = render(n1, e1)
+		n2, e2 := parsley.Parse(ctx, combinator.Sentence(b.NT[0]))
+		return first, render(n2, e2)
+	}
+	if !hasKind(g, KLTrim, KRTrim) {
+		// (results are rendered relative to the file start only when the file stands alone; with a
+		// preceding file both grammars are shifted alike)
+		pf, ps := twoCalls(true)
+		mf, ms := twoCalls(false)
+		if pf != mf || ps != ms {
+			return fmt.Errorf("two Parse calls on one context (the rule as root, then Sentence(rule)): plain grammar %s then %s, memoized grammar %s then %s", pf, ps, mf, ms)
+		}
+		if !strings.HasPrefix(pf, "error") && strings.HasPrefix(ps, "error") {
+			st.Class("one context, two Parse calls: the first succeeds, the second fails")
+		}
+	}
 	hits := 0
 	for _, v := range probe.asks {
 		if v > 1 {
@@ -164,6 +277,10 @@ func init() {
 		ID:      "C03",
 		NewCase: func() interface{} { return &C03Case{} },
 		Gen: func(t *rapid.T) interface{} {
+			if rapid.IntRange(0, 199).Draw(t, "long") == 77 {
+				n := rapid.SampledFrom([]int{1000, 1023, 1024, 1025, 1100, 2047, 2049, 3000, 4097, 5000}).Draw(t, "longN") + rapid.IntRange(0, 3).Draw(t, "longOff")
+				return &C03Case{Long: n, LongKind: rapid.IntRange(0, 2).Draw(t, "longKind"), PreLen: rapid.SampledFrom([]int{0, 0, 7, 70000}).Draw(t, "longPre")}
+			}
 			o := GenOpts{MaxNT: 3, MaxDepth: 3, Alphabet: "ab", NonMono: true, MaxInput: 6, ExtraMemo: 3, Names: true, LRFree: true, Share: true, MemoLeaves: true, Suppress: rapid.IntRange(0, 2).Draw(t, "suppress") == 0}
 			// trimming with operands that return fresh nodes (see genRefTrim): RightTrim must then leave
 			// every memoized node alone, and memoized and plain grammar agree
